@@ -8,7 +8,7 @@ reads the string back from the buffer. These equalities justify the meaning the 
 compares the two buffers as `u64`s, i.e. the buffers, and `buffer_determines_name` / `name_determines_buffer` show that
 for buffers built by `new` this is equality of the strings).
 -/
-import TzVerif.Generated.Src
+import TzVerif.SrcBase
 import TzVerif.Model.TimeZone
 import TzVerif.Proofs.SrcEqCal
 
